@@ -29,6 +29,7 @@ type IssueP struct {
 	Code string `json:"code"`
 	Ty   string `json:"ty"`
 	Msg  string `json:"msg"`
+	Ph   bool   `json:"ph"` // the message still contains a {{placeholder}}
 }
 
 // the data value handed to Parse for the case's front end
@@ -68,6 +69,7 @@ type CallLine struct {
 }
 
 type recorder struct {
+	shared bool
 	events []Event
 	token  string
 	root   reflect.Value // addressable destination root
@@ -116,6 +118,10 @@ func (r *recorder) callback(ev, kind string, i int, tmpl []string, n *Node, arg 
 		}
 		dp[k] = s
 	}
+	if r.shared {
+		// a shared schema object has one closure for all its positions: derive the position from the issue path
+		dp = dpathFromIpath(r.schema, ipath)
+	}
 	class := "other"
 	seen := other
 	self := addrAt(r.root, r.schema, dp)
@@ -159,17 +165,26 @@ func (r *recorder) callback(ev, kind string, i int, tmpl []string, n *Node, arg 
 }
 
 func projIssue(key string, i *z.ZogIssue) IssueP {
-	return IssueP{Key: key, Path: i.Path, Code: i.Code, Ty: i.Dtype, Msg: i.Message}
+	return IssueP{Key: key, Path: i.Path, Code: i.Code, Ty: i.Dtype, Msg: i.Message, Ph: strings.Contains(i.Message, "{{")}
 }
 
 // run one case once; order = wanted insertion order of the root struct's fields (nil = as declared)
 func runOnce(c *Case, order []int, opts ...z.ExecOption) (evs []Event, ret Ret) {
 	rec := &recorder{token: "tok-" + c.ID, schema: c.Schema}
 	b := &builder{rec: rec, c: c, order: map[string][]int{}}
+	if c.shared {
+		b.share = map[*Node]z.ZogSchema{}
+		rec.shared = true
+	}
 	if order != nil {
 		b.order[""] = order
 	}
-	sch := b.build(c.Schema, []string{})
+	var sch z.ZogSchema
+	if c.Chain != nil {
+		sch = b.buildChain(c)
+	} else {
+		sch = b.build(c.Schema, []string{})
+	}
 	destPtr := reflect.New(goType(c.Schema))
 	rec.root = destPtr.Elem()
 	var data any
@@ -303,7 +318,6 @@ func runOnce(c *Case, order []int, opts ...z.ExecOption) (evs []Event, ret Ret) 
 	return rec.events, ret
 }
 
-
 // the order in which the root struct's fields were visited (generators never reuse root field
 // names below the root)
 func rootOrder(evs []Event, root *Node) []string {
@@ -347,4 +361,47 @@ func sanitizeOK(isMap bool, m z.ZogIssueMap, l z.ZogIssueList) bool {
 		}
 	}
 	return true
+}
+
+// destination path of the node an issue path (schema keys, no tags) leads to: pointers add "*"
+func dpathFromIpath(root *Node, ipath string) []string {
+	segs := []string{}
+	for _, part := range strings.Split(ipath, ".") {
+		if part == "" {
+			continue
+		}
+		i := strings.Index(part, "[")
+		if i < 0 {
+			segs = append(segs, part)
+			continue
+		}
+		if i > 0 {
+			segs = append(segs, part[:i])
+		}
+		segs = append(segs, idxRe.FindAllString(part[i:], -1)...)
+	}
+	dp := []string{}
+	n := root
+	for _, s := range segs {
+		for n.K == "ptr" {
+			dp = append(dp, "*")
+			n = n.Elem()
+		}
+		dp = append(dp, s)
+		if n.K == "slice" {
+			n = n.Elem()
+		} else if n.K == "struct" {
+			for _, k := range n.Kids {
+				if k.Key == s {
+					n = k.Node
+					break
+				}
+			}
+		}
+	}
+	for n.K == "ptr" {
+		dp = append(dp, "*")
+		n = n.Elem()
+	}
+	return dp
 }
